@@ -32,6 +32,8 @@ type Knobs struct {
 	// tape-chosen number of steps (a slow node: everybody else keeps running; it
 	// comes back early only when nothing else can move)
 	Stall int `json:"stall,omitempty"`
+	// UnlockYield: every unlock is followed by a schedule point
+	UnlockYield bool `json:"unlockYield,omitempty"`
 	// PCT: priority schedule of depth d (Burckhardt et al., "A randomized scheduler
 	// with probabilistic guarantees of finding bugs"): every actor (a connection's
 	// emulator goroutines, a client) gets a tape-drawn priority, the enabled actor
